@@ -1,7 +1,7 @@
 use crate::{
     config::{CompressionConfig, DatabaseConfig, InnerCipherConfig, KdfConfig, OuterCipherConfig},
     crypt::calculate_sha256,
-    db::{Database, Entry, Group, NodeRefMut, Value},
+    db::{Database, Entry, Group, Node, Value},
     error::{DatabaseIntegrityError, DatabaseKeyError, DatabaseOpenError},
     format::DatabaseVersion,
     key::DatabaseKey,
@@ -92,8 +92,9 @@ fn collapse_tail_groups(branch: &mut Vec<Group>, level: usize, root: &mut Group)
     }
 }
 
-// A map from a GroupId to a path identifying (by name) a group in the group tree.
-type GidMap = HashMap<u32, Vec<String>>;
+// A map from a GroupId to a path identifying (by child position at each level) a group in the group tree.
+// Names cannot be used for this: sibling groups may share a name.
+type GidMap = HashMap<u32, Vec<usize>>;
 
 fn parse_groups(
     root: &mut Group,
@@ -101,12 +102,12 @@ fn parse_groups(
     data: &mut &[u8],
 ) -> Result<GidMap, DatabaseIntegrityError> {
     // Loop over group TLVs
-    let mut gid_map: HashMap<u32, Vec<String>> = HashMap::new(); // the gid to group path map
+    let mut gid_map: GidMap = HashMap::new(); // the gid to group path map
     let mut branch: Vec<Group> = Vec::new(); // the current branch in the group tree
     let mut group: Group = Default::default(); // the current group (will be added as a leaf of the branch)
     let mut level: Option<u16> = None; // the current group's level
     let mut gid: Option<u32> = None; // the current group's id
-    let mut group_path: Vec<String> = Vec::new(); // the current group path
+    let mut group_path: Vec<usize> = Vec::new(); // the current group path
     let mut num_groups = 0; // the total number of parsed groups
     while num_groups < header_num_groups as usize {
         // Read group TLV
@@ -151,7 +152,9 @@ fn parse_groups(
                     collapse_tail_groups(&mut branch, level, root);
                 }
                 if level == branch.len() {
-                    group_path.push(group.name.clone());
+                    // the position the group takes among its parent's children once the branch is collapsed
+                    let position = branch.last().map_or(root.children.len(), |parent| parent.children.len());
+                    group_path.push(position);
                     branch.push(group);
                 } else {
                     // Level is beyond the current depth, missing intermediate levels?
@@ -244,19 +247,17 @@ fn parse_entries(
                 ensure_length(field_type, field_size, 0)?;
 
                 let group_id = gid.ok_or_else(|| DatabaseIntegrityError::MissingKDBGroupId)?;
-                let group_path: Vec<&str> = gid_map
+                let group_path = gid_map
                     .get(&group_id)
-                    .ok_or_else(|| DatabaseIntegrityError::InvalidKDBGroupId { group_id })?
-                    .into_iter()
-                    .map(|v| v.as_str())
-                    .collect();
+                    .ok_or_else(|| DatabaseIntegrityError::InvalidKDBGroupId { group_id })?;
 
-                let group = root.get_mut(group_path.as_slice());
-                let group = if let Some(NodeRefMut::Group(g)) = group {
-                    g
-                } else {
-                    panic!("Follow group_path")
-                };
+                let mut group = &mut *root;
+                for &position in group_path {
+                    group = match group.children.get_mut(position) {
+                        Some(Node::Group(g)) => g,
+                        _ => return Err(DatabaseIntegrityError::InvalidKDBGroupId { group_id }),
+                    };
+                }
 
                 group.add_child(entry);
                 entry = Default::default();
